@@ -50,7 +50,10 @@ Proof. vm_compute. repeat split. Qed.
 Lemma k6_refuted_l : refutes_c01 6 w_k6.
 Proof. vm_compute. repeat split. Qed.
 
-Lemma k7_refuted_l : refutes_c01 7 w_k7 /\ c01_fails w_k7 (mrun w_k7) = [(6, 7)].
+(** C01-K7, repaired by 752d5ee: on the pre-repair model ([read_pre]: private transaction manager, epoch 0) the
+    witness violates the specification, on the current model it satisfies it *)
+Lemma k7_pre_refuted_l : snapshot_ok w_k7 (mrun_pre w_k7) = false /\ snapshot_ok w_k7 (mrun w_k7) = true
+  /\ c01_fails w_k7 (mrun w_k7) = [].
 Proof. vm_compute. repeat split. Qed.
 
 (** histories outside every class, with reads strictly inside another session's open transaction *)
@@ -115,7 +118,18 @@ Lemma rollback_inplace_refuted_l : refutes_c02 1 w2_k1.
 Proof. vm_compute. repeat split. Qed.
 Lemma rollback_creation_refuted_l : refutes_c02 2 w2_k2.
 Proof. vm_compute. repeat split. Qed.
-Lemma drop_refuted_l : refutes_c02 4 w2_k4.
+(** C02-K4, repaired by 3eb02b5: on the pre-repair model ([step_pre]: no Drop for Session) dropping a session with
+    an open transaction leaves its node visible; on the current model the dump after the drop equals the dump
+    before the begin.  (The labelled variant [w2_k4], the old witness, now fails only through the label-index
+    entry a rollback leaves: finding C02-K2.) *)
+Definition w2_k4_plain := with_dumps
+  [CreateNode 9 [0] []]
+  [Begin 0; CreateNode 0 [] []; InsertTriple 0 (0, 0, 0); DropSession 0] 1 0 2 0.
+Lemma drop_pre_refuted_l :
+  atomic_ok (fst w2_k4_plain) (mrun_pre (fst w2_k4_plain)) (snd w2_k4_plain) = false
+  /\ atomic_ok (fst w2_k4_plain) (mrun (fst w2_k4_plain)) (snd w2_k4_plain) = true
+  /\ c02_checked (fst w2_k4_plain) (mrun (fst w2_k4_plain)) (snd w2_k4_plain) = 1
+  /\ c02_fails (fst w2_k4) (mrun (fst w2_k4)) (snd w2_k4) = [(0, 2)].
 Proof. vm_compute. repeat split. Qed.
 Lemma commit_epoch_refuted_l : refutes_c02 5 w2_k5.
 Proof. vm_compute. repeat split. Qed.
